@@ -1,5 +1,6 @@
 //! Property → engines, budgets, evidence.
 
+use crate::eng_codec::{ReadEngine, WriteEngine};
 use crate::eng_hpack::{self, DecEngine, EncEngine, SplitEngine};
 use crate::runner::{self, drive, finish, Ctx, Engine, Report, RunStats, Tier};
 use serde_json::{json, Value};
@@ -93,6 +94,14 @@ pub fn run_check(id: &str, tier: Tier) -> i32 {
             assumptions.push("reference decoder implements RFC 7541; h2 rejecting an RFC-valid block (HTTP field validation, its documented 5-octet integer limit) is allowed by the property".into());
             assumptions.push("at most one local table-size change per history (the public API only sets it at the handshake)".into());
         }
+        "C12" => {
+            parts.push(run_engine(&WriteEngine, &ctx, scale(tier, 40_000, 1_000_000)));
+            if parts.iter().all(|p| p.failure.is_none()) {
+                parts.push(run_engine(&ReadEngine, &ctx, scale(tier, 60_000, 2_000_000)));
+            }
+            assumptions.push("refmodel::wire implements RFC 9113 §4/§6 framing (self-tested by round trip; must parse every byte h2 emits)".into());
+            assumptions.push("only zero-valued padding is generated on the read side (a receiver MAY reject non-zero padding)".into());
+        }
         _ => {
             eprintln!("no check registered for {}", id);
             return 2;
@@ -112,6 +121,8 @@ pub fn replay(path: &str) -> i32 {
         "hpack-split" => runner::replay_case(&SplitEngine, case),
         "hpack-enc" => runner::replay_case(&EncEngine { big: false }, case),
         "hpack-enc-big" => runner::replay_case(&EncEngine { big: true }, case),
+        "codec-write" => runner::replay_case(&WriteEngine, case),
+        "codec-read" => runner::replay_case(&ReadEngine, case),
         other => {
             eprintln!("unknown engine {:?}", other);
             return 2;
